@@ -1,0 +1,8 @@
+//go:build !verif
+
+package dkv
+
+import "reduction.dev/reduction/dkv/sst"
+
+func verifTuneOptions(*DBOptions)       {}
+func verifTuneCompactor(*sst.Compactor) {}
